@@ -300,7 +300,7 @@ func (s *session) serve() {
 				// while it was away (ZooKeeper's DataTree.setWatches): the client passes the last
 				// transaction id it has seen
 				rel := d.i64()
-				var fire [][2]interface{}
+				var fire [][3]interface{}
 				for i, m := range []map[string]bool{s.dataW, s.existW, s.childW} {
 					n := d.i32()
 					for j := int32(0); j < n && !d.bad; j++ {
@@ -308,15 +308,15 @@ func (s *session) serve() {
 						nd, ok := z.nodes[p]
 						switch {
 						case i == 0 && !ok:
-							fire = append(fire, [2]interface{}{int32(evDeleted), p})
+							fire = append(fire, [3]interface{}{int32(evDeleted), p, z.zxid})
 						case i == 0 && nd.mzxid > rel:
-							fire = append(fire, [2]interface{}{int32(evDataChanged), p})
+							fire = append(fire, [3]interface{}{int32(evDataChanged), p, nd.mzxid})
 						case i == 1 && ok:
-							fire = append(fire, [2]interface{}{int32(evCreated), p})
+							fire = append(fire, [3]interface{}{int32(evCreated), p, nd.mzxid})
 						case i == 2 && !ok:
-							fire = append(fire, [2]interface{}{int32(evDeleted), p})
+							fire = append(fire, [3]interface{}{int32(evDeleted), p, z.zxid})
 						case i == 2 && nd.pzxid > rel:
-							fire = append(fire, [2]interface{}{int32(evChildrenChanged), p})
+							fire = append(fire, [3]interface{}{int32(evChildrenChanged), p, nd.pzxid})
 						default:
 							m[p] = true
 						}
@@ -325,7 +325,7 @@ func (s *session) serve() {
 				// ZooKeeper processes these watches while it handles the request: the notifications leave
 				// before the reply does (and, when held here, the reply's zxid must not run ahead of them)
 				for _, f := range fire {
-					s.event(f[0].(int32), f[1].(string))
+					s.eventAt(f[0].(int32), f[1].(string), f[2].(int64))
 				}
 				hdr(0)
 			case 3: // exists
@@ -388,12 +388,13 @@ func (s *session) serve() {
 // of the oldest one still held (the client hands this id back in setWatches after a reconnect, and the
 // server decides from it which watches have to fire at once).
 func (s *session) visibleZxid() int64 {
+	v := s.zk.zxid
 	for _, h := range s.zk.pending {
-		if h.s == s {
-			return h.zxid - 1
+		if h.s == s && h.zxid-1 < v {
+			v = h.zxid - 1
 		}
 	}
-	return s.zk.zxid
+	return v
 }
 
 func (s *session) close() {
@@ -412,7 +413,11 @@ func (s *session) close() {
 	}
 }
 
-func (s *session) event(typ int32, path string) {
+func (s *session) event(typ int32, path string) { s.eventAt(typ, path, s.zk.zxid) }
+
+// eventAt: zxid is the transaction that caused the notification (for one fired by setWatches: the one that changed
+// the node back then, not the current one) — a reply must not carry a transaction id at or beyond it while it is held.
+func (s *session) eventAt(typ int32, path string, zxid int64) {
 	s.zk.logf("s%d ev %d %s", s.id, typ, path)
 	e := &enc{}
 	e.i32(-1)
@@ -422,7 +427,7 @@ func (s *session) event(typ int32, path string) {
 	e.i32(3) // SyncConnected
 	e.str(path)
 	if s.zk.Hold {
-		s.zk.pending = append(s.zk.pending, heldEvent{s, e.b, fmt.Sprintf("%d %s", typ, path), s.zk.zxid})
+		s.zk.pending = append(s.zk.pending, heldEvent{s, e.b, fmt.Sprintf("%d %s", typ, path), zxid})
 		return
 	}
 	s.send(e.b)
